@@ -7,5 +7,5 @@ import (
 )
 
 func TestWorker(t *testing.T) {
-	core.WorkerMain(t, core.Property{ID: "C11", Configs: []string{"sweep", "sweep-secs1", "seeded", "pure"}, Build: Build})
+	core.WorkerMain(t, core.Property{ID: "C11", Configs: []string{"sweep", "sweep-secs1", "seeded", "pure", "reopen"}, Build: Build})
 }
